@@ -802,7 +802,12 @@ def _register_vector_gradient_rules() -> None:
             if left_index is not None and right_index is not None:
                 # wrt appears in both: x · x case or overlapping vectors
                 # ∂(x·x)/∂x_i = 2*x_i
-                if left is right or left.name == right.name:
+                # (same element variables in the same positions - view names such
+                # as "x[0:4]" are shared by x[0:4], x[::-1] and x[0:4:2])
+                if left is right or (
+                    left.size == right.size
+                    and all(a is b for a, b in zip(left._variables, right._variables))
+                ):
                     return _simplify_mul(Constant(2.0), wrt)
                 else:
                     # Different vectors with same variable name? Sum contributions
